@@ -662,6 +662,7 @@ def run(ctx: Ctx):
     zero_survivor_runs(ctx, work)
     cli_fault_runs(ctx, work)
     worker_thread_run(ctx, work)
+    name_and_history_streams(ctx, work)
     os.chdir(str(VERIF))
     shutil.rmtree(work, ignore_errors=True)
 
@@ -702,6 +703,357 @@ def zero_survivor_runs(ctx, work):
                               {**case, "file_columns": list(f.colnames), "file_rows": int(len(f)), "table_columns": want_cols, "table_rows": int(len(tab))})
             elif str(f.meta.get("SIMTIME", f.meta.get("simTime"))) != str(tab.meta["simTime"][0] if isinstance(tab.meta["simTime"], tuple) else tab.meta["simTime"]):
                 ctx.violation("StagedWriter", "zero-survivors-file-is-not-this-run", "the header on disk is not this run's header", case)
+
+
+# --------------------------------------------------------------------------- spellings of the output name; histories of runs on one path
+#
+# The property is stated for "the output file" and for every run ("after each stage completes the output file is …", "if a later
+# stage raises or the process dies, the file left on disk is the last such prefix"). Neither clause depends on HOW the caller
+# names the file, nor on what earlier runs did with the same name. Two general streams follow from that:
+#   (1) one and the same file named in every way a caller can legitimately name it (str / pathlib / any os.PathLike / a str
+#       subclass; absolute, relative to the working directory, a bare name in the working directory, './name', an un-normalised
+#       path, a path through a symlinked directory; directory and file names with blanks and non-ASCII characters; with and
+#       without the .fits extension): the file on disk before every stage and at the end must be the one of the reference run;
+#   (2) histories of runs on ONE path (fault → clean, clean → clean, fault → fault at another stage, process death → clean, and
+#       random longer ones; all steps in this process, or every step in a fresh process; steps may spell the path differently):
+#       after EACH step the clauses must hold for THAT step — a step without an injected failure does not raise and leaves the
+#       final table of that step; a step with a failure injected in stage s lets exactly that failure out and leaves the prefix of
+#       that step; and "the file left on disk" is all that a run leaves: the output directory (and the working directory) is listed
+#       before and after each step and must contain nothing but the output file.
+# Narrowing, with reason: failures are injected only in stages with at least one completed boundary — before the first boundary
+# the code has not touched the path and the property does not say what an older file at that path must become; bytes names are
+# not tried (the annotation is str, astropy's FITS writer does not accept bytes for an existing file).
+
+
+class _FsPath:
+    """an os.PathLike that is neither str nor pathlib (os.DirEntry, py.path.local, a caller's own path class look like this)"""
+
+    def __init__(self, p):
+        self._p = p
+
+    def __fspath__(self):
+        return self._p
+
+    def __repr__(self):
+        return f"<os.PathLike object with __fspath__() == {self._p!r}>"
+
+
+SPELLINGS = [
+    "str, absolute", "pathlib.Path, absolute", "os.PathLike object, absolute", "str subclass (numpy.str_), absolute",
+    "str, relative to the working directory", "pathlib.Path, relative to the working directory",
+    "str, bare name in the working directory", "pathlib.Path, bare name in the working directory", "str, './name' in the working directory",
+    "str, un-normalised ('dir/../dir//./name')", "pathlib.PurePosixPath, through a symlinked directory", "str, through a symlinked directory",
+]
+DIR_NAMES = ["plain", "with blank", "énergie_µ", "run 2024 – ν τ"]
+FILE_NAMES = ["out.fits", "out", "run_0007.ecsv", "résultat final.fits", "E18.5.dat", "a b.FITS"]
+
+
+def _spell(kind, abs_path, cwd):
+    """(the object handed to compute() as output_file, the working directory of the run) for one way of naming abs_path"""
+    import pathlib
+    d, name = os.path.split(abs_path)
+    if kind == "str, absolute":
+        return abs_path, cwd
+    if kind == "pathlib.Path, absolute":
+        return pathlib.Path(abs_path), cwd
+    if kind == "os.PathLike object, absolute":
+        return _FsPath(abs_path), cwd
+    if kind == "str subclass (numpy.str_), absolute":
+        return np.str_(abs_path), cwd
+    if kind == "str, relative to the working directory":
+        return os.path.relpath(abs_path, cwd), cwd
+    if kind == "pathlib.Path, relative to the working directory":
+        return pathlib.Path(os.path.relpath(abs_path, cwd)), cwd
+    if kind == "str, bare name in the working directory":
+        return name, d
+    if kind == "pathlib.Path, bare name in the working directory":
+        return pathlib.Path(name), d
+    if kind == "str, './name' in the working directory":
+        return "./" + name, d
+    if kind == "str, un-normalised ('dir/../dir//./name')":
+        return f"{d}/../{os.path.basename(d)}//./{name}", cwd
+    if kind.endswith("through a symlinked directory"):
+        link = os.path.join(os.path.dirname(d), "link to " + os.path.basename(d))
+        if not os.path.islink(link):
+            os.symlink(d, link)
+        p = os.path.join(link, name)
+        return (pathlib.PurePosixPath(p) if kind.startswith("pathlib") else p), cwd
+    raise ValueError(kind)
+
+
+def _simtime(tab):
+    v = tab.meta.get("simTime")
+    return str(v[0] if isinstance(v, tuple) else v)
+
+
+def _disk_state(abs_path):
+    if not os.path.exists(abs_path):
+        return None
+    try:
+        return strip_simtime(file_state(abs_path))
+    except Exception as ex:  # noqa
+        return ("unreadable", type(ex).__name__)
+
+
+def staged_step(arg):
+    """One run of compute(write_stages=True) as a step of a history (JSON-able argument: also executed in a child process).
+    arg: spec, path (absolute), spelling, cwd, fault = None | [stage name, 'raise' | 'exit'], observe = record what is on disk
+    when each stage starts."""
+    spec, abs_path = arg["spec"], arg["path"]
+    obj, run_cwd = _spell(arg["spelling"], abs_path, arg["cwd"])
+    sites, _ = stage_sites(spec["mode"] == "Target", spec["optical"], spec["radio"])
+    fault = arg.get("fault")
+    res = {"output_file": repr(obj), "run_cwd": run_cwd, "raised": None, "reached": False, "simtime": None, "checkpoints": []}
+
+    def at(site):
+        def action():
+            if arg.get("observe"):
+                res["checkpoints"].append((site[0], site[5], _disk_state(abs_path)))
+            if fault and fault[0] == site[0]:
+                res["reached"] = True
+                if fault[1] == "exit":
+                    os._exit(7)
+                raise InjectedFault(site[0])
+        return action
+
+    old = os.getcwd()
+    os.chdir(run_cwd)
+    try:
+        with contextlib.ExitStack() as st:
+            for site in sites:
+                if arg.get("observe") or (fault and fault[0] == site[0]):
+                    st.enter_context(inject(site, at(site)))
+            try:
+                sim = run_compute(spec, obj)
+                res["simtime"], res["rows"] = _simtime(sim), len(sim)
+            except InjectedFault as ex:
+                res["raised"] = ["InjectedFault", str(ex)]
+            except Exception as ex:  # noqa
+                res["raised"] = [type(ex).__name__, str(ex)[:160]]
+    finally:
+        os.chdir(old)
+    return res
+
+
+_THIS_FILE = os.path.abspath(__file__)  # (taken at import: the streams below change the working directory)
+CHILD_STEP = r"""
+import json, os, sys, warnings
+warnings.filterwarnings("ignore")
+import importlib.util
+spec_ = importlib.util.spec_from_file_location("c17", sys.argv[1])
+m = importlib.util.module_from_spec(spec_); spec_.loader.exec_module(m)
+arg = json.loads(sys.argv[2])
+res = m.staged_step(arg)
+with open(arg["result"], "w") as f:
+    json.dump(res, f)
+os._exit(0)
+"""
+
+
+def _step_in_child(arg):
+    p = subprocess.run([sys.executable, "-c", CHILD_STEP, _THIS_FILE, json.dumps(arg)], capture_output=True, text=True, cwd=arg["cwd"],
+                       env={**os.environ, "C17_CHILD": "1",
+                            "PYTHONPATH": os.path.dirname(os.path.dirname(_THIS_FILE)) + os.pathsep + os.environ.get("PYTHONPATH", "")})
+    if p.returncode == 7 and arg.get("fault") and arg["fault"][1] == "exit":
+        obj, run_cwd = _spell(arg["spelling"], arg["path"], arg["cwd"])
+        return {"output_file": repr(obj), "run_cwd": run_cwd, "raised": None, "reached": True, "died": True, "simtime": None, "checkpoints": []}
+    if p.returncode != 0 or not os.path.exists(arg["result"]):
+        raise InfraError(f"history step in a child process failed: rc={p.returncode} {p.stderr[-300:]}")
+    with open(arg["result"]) as f:
+        return json.load(f)
+
+
+def _listing(d):
+    return sorted(os.listdir(d))
+
+
+def play_history(hist, bases, wd, in_child):
+    """run the steps of one history on one output path; after each step the file is copied aside and the directories are listed
+    (judged afterwards, in the main thread). hist: {dir, name, steps: [{spec: label, fault: None | [stage, how], spelling}]}"""
+    outdir = os.path.join(wd, hist["dir"])
+    os.makedirs(outdir)
+    side = os.path.join(wd, "observed")
+    os.makedirs(side)
+    cwd = hist["cwd"] = os.path.join(wd, "cwd")  # a working directory of the history's own: what appears in it was put there by its runs
+    os.makedirs(cwd)
+    abs_path = os.path.join(outdir, hist["name"])
+    out = []
+    for i, step in enumerate(hist["steps"]):
+        arg = {"spec": bases[step["spec"]]["spec"], "path": abs_path, "spelling": step["spelling"], "cwd": cwd, "fault": step["fault"],
+               "observe": bool(step.get("observe")), "result": os.path.join(side, f"result{i}.json")}
+        before = {"outdir": _listing(outdir), "cwd": _listing(cwd)}
+        res = _step_in_child(arg) if in_child else staged_step(arg)
+        copy = None
+        if os.path.exists(abs_path):
+            copy = os.path.join(side, f"after{i}.fits")
+            shutil.copyfile(abs_path, copy)
+        out.append({"res": res, "copy": copy, "before": before, "after": {"outdir": _listing(outdir), "cwd": _listing(cwd)}})
+    return out
+
+
+def judge_history(ctx, hist, bases, played, where):
+    name = hist["name"]
+    told = [f"{s['spec']}:{'no failure' if not s['fault'] else s['fault'][1] + ' in ' + s['fault'][0]} [{s['spelling']}]" for s in hist["steps"]]
+    for i, (step, o) in enumerate(zip(hist["steps"], played)):
+        base, res, fault = bases[step["spec"]], o["res"], step["fault"]
+        spec = base["spec"]
+        case = {"config": spec_key(spec), "thrown_events": spec["n"], "seed": spec["seed"], "log_nu_energy": spec["loge"],
+                "output_file": res["output_file"], "spelling": step["spelling"], "working_directory": "the output directory" if res["run_cwd"] != hist["cwd"] else "another directory",
+                "processes": where, "history_on_this_path": told, "step": i + 1, "failure_injected": fault}
+        ctx.case(("history", where, hist["id"], i), {"op": "run k of a history on one output path", **case} if i == 1 and hist["id"] == 0 else None)
+        ctx.count("history_steps_" + where.replace(" ", "_"))
+        how = "no-failure" if not fault else ("after-raise" if fault[1] == "raise" else "after-process-death")
+        # (a) what comes out of compute()
+        if res["raised"] and res["raised"][0] != "InjectedFault":
+            if fault and res["reached"]:
+                ctx.violation("compute", "fault-not-propagated", f"the failure injected in stage {fault[0]} came out as {res['raised'][0]}: {res['raised'][1]}", case)
+            else:
+                ctx.violation("compute", "raises-although-no-stage-failed",
+                              f"compute(write_stages=True, output_file={res['output_file']}) raises {res['raised'][0]}: {res['raised'][1][:120]} although no stage failed"
+                              + (f" (run {i + 1} on this path; earlier runs: {told[:i]})" if i else ""), case)
+            continue
+        if fault and not res["raised"] and not res.get("died"):
+            ctx.violation("compute", "fault-not-propagated", f"an exception raised inside stage {fault[0]} did not come out of compute()", case)
+            continue
+        # (b) the file left by THIS step
+        k = None if not fault else [s for s in base["sites"] if s[0] == fault[0]][0][5]
+        want = strip_simtime(base["final"]) if not fault else strip_simtime(base["states"][k - 1])
+        if o["copy"] is None:
+            ctx.violation("StagedWriter", f"file-missing:{how}", "staged writing is on and stages completed, but there is no file at the output path", case)
+        else:
+            try:
+                left = file_state(o["copy"])
+            except Exception as ex:  # noqa
+                ctx.violation("StagedWriter", f"leftover-unreadable:{how}", f"file left on disk is not a readable FITS table: {type(ex).__name__}", case)
+                left = None
+            if left is not None and strip_simtime(left) != want:
+                ctx.violation("StagedWriter", f"leftover-not-this-runs-prefix:{how}",
+                              "the file left on disk is not the table of the stages completed by this run" if fault else "the file left on disk is not the final table of this run",
+                              {**case, "file_columns": [n for n, _ in left[0]], "expected_columns": [n for n, _ in want[0]]})
+            elif left is not None and not fault and res["simtime"] is not None and dict(left[1]).get("SIMTIME") != repr(res["simtime"]):
+                ctx.violation("StagedWriter", f"leftover-not-this-runs-prefix:{how}", "the header on disk is not this run's header", case)
+        # (c) what the stages of a run must have found on disk (recorded when each stage started)
+        for stage, kb, state in res["checkpoints"]:
+            state = None if state is None else (list(map(list, state[0])), list(map(list, state[1]))) if len(state) == 2 and state[0] != "unreadable" else state
+            wantk = None if kb == 0 else strip_simtime(base["states"][kb - 1])
+            wantk = None if wantk is None else ([list(c) for c in wantk[0]], [list(m_) for m_ in wantk[1]])
+            if kb == 0 and i > 0:
+                continue  # before the first boundary of a later run the path still holds the earlier run
+            if state != wantk:
+                cls = "file-missing-at-stage-boundary" if state is None else ("file-exists-before-first-boundary" if wantk is None else "file-at-stage-boundary-is-not-the-prefix")
+                ctx.violation("StagedWriter", cls, f"when stage {stage} starts ({kb} boundaries completed) the output path does not hold the table of the completed stages",
+                              {**case, "stage_about_to_start": stage, "boundaries_completed": kb, "on_disk": None if state is None else [c[0] for c in state[0]] if state[0] != "unreadable" else list(state)})
+                break
+        # (d) a run leaves the output file and nothing else
+        extra = sorted(set(o["after"]["outdir"]) - set(o["before"]["outdir"]) - {name})
+        extra_cwd = [] if res["run_cwd"] != hist["cwd"] else sorted(set(o["after"]["cwd"]) - set(o["before"]["cwd"]))
+        if extra or extra_cwd:
+            ctx.violation("compute", f"leaves-other-files:{how}", "the run left more than the output file on disk",
+                          {**case, "output_directory_before": o["before"]["outdir"], "output_directory_after": o["after"]["outdir"], "new_in_working_directory": extra_cwd})
+
+
+def _reference(ctx, spec, wd, rng):
+    """a verified complete run (complete_run) on a fresh str path: its per-boundary states are the prefixes of every other run of spec"""
+    for attempt in range(4):
+        spec = {**spec, "n": int(rng.integers(100, 160)), "seed": int(rng.integers(2**31)), "loge": float(round(rng.uniform(8.0, 10.0), 1))}
+        d = os.path.join(wd, f"try{attempt}")
+        os.makedirs(d)
+        base = complete_run(ctx, spec, d)
+        if base is not None:
+            base["spec"] = spec
+            return base
+    return None
+
+
+def name_and_history_streams(ctx, work):
+    from concurrent.futures import ThreadPoolExecutor
+    rng = ctx.rng
+    top = os.path.join(work, "names-and-histories")
+    cwd = os.path.join(top, "cwd")
+    os.makedirs(cwd)
+    old_cwd = os.getcwd()
+    os.chdir(cwd)
+    try:
+        bases = {"A": _reference(ctx, {"mode": "Diffuse", "optical": True, "radio": False, "spectrum": "mono"}, os.path.join(top, "refA"), rng),
+                 "B": _reference(ctx, {"mode": "Diffuse", "optical": False, "radio": True, "spectrum": "power"}, os.path.join(top, "refB"), rng)}
+        if bases["A"] is None or bases["B"] is None:
+            ctx.notes.append("names-and-histories: no reference run with surviving events; streams skipped")
+            return
+        try:
+            for n_ in DIR_NAMES + FILE_NAMES:
+                os.fsencode(n_)
+            dirs, files = list(DIR_NAMES), list(FILE_NAMES)
+        except UnicodeError:
+            dirs, files = DIR_NAMES[:2], [f for f in FILE_NAMES if f.isascii()]
+        pool = {"d": [], "f": []}
+
+        def pick(which, src):
+            if not pool[which]:
+                pool[which] = [src[j] for j in rng.permutation(len(src))]
+            return pool[which].pop()
+
+        def fault_in(label, how, other_than=None):
+            cand = [s[0] for s in bases[label]["sites"] if s[5] >= 1 and s[0] != other_than]
+            return [cand[int(rng.integers(len(cand)))], how]
+
+        def some_spelling():
+            return SPELLINGS[int(rng.integers(len(SPELLINGS)))]
+
+        def history(steps, one_spelling=True):
+            """the fixed patterns name the path in ONE way throughout (chosen at random); the random histories mix the spellings"""
+            if one_spelling:
+                sp = some_spelling()
+                steps = [{**s_, "spelling": s_["spelling"] or sp} for s_ in steps]
+            return {"dir": pick("d", dirs), "name": pick("f", files), "steps": steps}
+
+        def step(label, fault=None, spelling=None, observe=False):
+            return {"spec": label, "fault": fault, "spelling": spelling, "observe": observe}
+
+        def random_history(hows):
+            n_steps = int(rng.integers(3, 5))
+            steps = []
+            for j in range(n_steps):
+                label = "AB"[int(rng.integers(2))]
+                kind = (["clean"] + hows)[int(rng.integers(1 + len(hows)))] if j < n_steps - 1 else "clean"
+                steps.append(step(label, None if kind == "clean" else fault_in(label, kind), spelling=some_spelling()))
+            return history(steps, one_spelling=False)
+
+        # (2) histories, each step in a fresh process (started first, they run beside the in-process streams)
+        f1 = fault_in("A", "raise")
+        fresh = [history([step("A", fault_in("A", "raise")), step("B")]),
+                 history([step("B", fault_in("B", "exit")), step("A")]),
+                 history([step("A"), step("B")]),
+                 history([step("A", f1), step("A", fault_in("A", "raise", other_than=f1[0]))]),
+                 history([step("B", fault_in("B", "exit")), step("A", fault_in("A", "raise")), step("B")])]
+        fresh += [random_history(["raise", "exit"]) for _ in range(8 if ctx.thorough else 1)]
+        # (2) the same kinds of history with all steps in this process
+        f2 = fault_in("B", "raise")
+        here = [history([step("A", fault_in("A", "raise")), step("B")]),
+                history([step("A"), step("B")]),
+                history([step("B", f2), step("B", fault_in("B", "raise", other_than=f2[0]))]),
+                history([step("B"), step("A", fault_in("A", "raise")), step("A")])]
+        here += [random_history(["raise"]) for _ in range(8 if ctx.thorough else 1)]
+        # (1) every spelling of the name: one observed run each (quick), followed by a failing run on the same path (thorough)
+        for sp in SPELLINGS[1:]:  # 'str, absolute' is the reference run itself
+            for label in ("AB" if ctx.thorough else "A"):
+                steps = [step(label, spelling=sp, observe=True)]
+                if ctx.thorough:
+                    steps.append(step(label, fault_in(label, "raise"), spelling=sp, observe=True))
+                here.append(history(steps))
+        for j, h in enumerate(fresh):
+            h["id"] = j
+        for j, h in enumerate(here):
+            h["id"] = j
+        ref = {k_: {"spec": b["spec"]} for k_, b in bases.items()}
+        with ThreadPoolExecutor(max_workers=8) as ex:
+            futs = [ex.submit(play_history, h, ref, os.path.join(top, f"fresh{h['id']}"), True) for h in fresh]
+            for h in here:
+                wd = os.path.join(top, f"here{h['id']}")
+                judge_history(ctx, h, bases, play_history(h, ref, wd, False), "one process")
+            for h, fu in zip(fresh, futs):
+                judge_history(ctx, h, bases, fu.result(), "a fresh process per run")
+    finally:
+        os.chdir(old_cwd)
 
 
 def search(ctx: Ctx):
